@@ -177,6 +177,28 @@ def run(ctx):
             dec = any(fields_of(s["p"])[-1:] == [cur] and hk.dominates(b2, bb) and hk.rvalue_expr(s["r"], 6, stop={"named"})[1:2] == ("Sub",)
                       for b2, i2, s in hk.assigns())
             ok = lt or (le and dec)
+            # a removal behind a step to the left (Backspace) takes the character in front of the old cursor: there is one only when the old
+            # cursor was at least 1. A clamped step (`saturating_sub(1)`) without that test removes the first character at cursor 0.
+            def steps_left(s_):
+                e_ = kit.strip_refs(hk.rvalue_expr(s_["r"], 10, stop={"named"}))
+                if e_[0] in ("bin", "checked") and e_[1] == "Sub":
+                    return "plain"
+                if e_[0] == "call" and re.search(r"<impl usize>::(saturating|wrapping)_sub$", str(e_[1])):
+                    return "clamped"
+                f_ = kit.strip_refs(hk.rvalue_expr(s_["r"], 12))
+                if f_[0] == "field" and str(f_[2]) == "0" and f_[1][0] == "downcast" and f_[1][2] == "Some" and \
+                        kit.strip_refs(f_[1][1])[0] == "call" and str(kit.strip_refs(f_[1][1])[1]).endswith("<impl usize>::checked_sub"):
+                    return "checked"
+                return None
+            lefts = [(b2, s_, steps_left(s_)) for b2, i2, s_ in hk.assigns() if fields_of(s_["p"])[-1:] == [cur] and hk.dominates(b2, bb) and steps_left(s_)]
+            if ok and lefts:
+                ok = all(kind_ == "checked" or at_least_one(L0._dom_constraints(hk, b2)) for b2, s_, kind_ in lefts)
+                if not ok:
+                    ctx.oblig(False, {"removal behind a step to the left": sp_file_line(t.get("sp"))}, "old cursor >= 1")
+                    ctx.violation("remove-at-line-start", sp_file_line(t.get("sp")), "a character is removed behind a step to the left that is not guarded by cursor > 0 "
+                                  "(a clamped step): at the start of the line the key removes the first character instead of doing nothing, and the line that is "
+                                  "submitted is not the line a plain editor holds")
+                    ok = True          # reported under its own key
             ctx.oblig(ok, {"removal": "guarded", "at": sp_file_line(t.get("sp"))}, "cursor < count, or (cursor <= count and decremented first)")
             if not ok:
                 ctx.violation("unguarded-remove", sp_file_line(t.get("sp")), "a character is removed at the cursor without the guard cursor < chars().count()")
